@@ -87,7 +87,7 @@ def gen_case(rng: random.Random, tier: str) -> dict:
         spec = {"form": "tuple", "parts": parts + [part(2)]}
     else:
         spec = {"form": "keywords", "kw": {"stage1": f"{lhs} ~ {parts[0]}", "stage2": {"a": part(2), "b": parts[-1]}}}
-    return {"cols": cols, "spec": spec, "output": rng.choice(["pandas", "numpy", "sparse"]), "pnull": pnull,
+    return {"efr": rng.random() < 0.7, "cols": cols, "spec": spec, "output": rng.choice(["pandas", "numpy", "sparse"]), "pnull": pnull,
             "enc": sorted(enc.values())}
 
 
@@ -134,12 +134,12 @@ def judge(case) -> Outcome:
         return out
     fleaves = list(walk(form))
     skeleton = tuple(p for p, _ in fleaves)
-    out.sig = (skeleton, tuple(len(leaf) for _, leaf in fleaves), case["pnull"] > 0, case["output"], tuple(case["enc"]))
-    tag = f"{case['spec']} out={case['output']}"
+    out.sig = (skeleton, tuple(len(leaf) for _, leaf in fleaves), case["pnull"] > 0, case["output"], tuple(case["enc"]), case.get("efr", True))
+    tag = f"{case['spec']} out={case['output']} efr={case.get('efr', True)}"
     joint: set = set()
     try:
         with quiet():
-            res = form.get_model_matrix(df, output=case["output"], drop_rows=joint, context={})
+            res = form.get_model_matrix(df, output=case["output"], drop_rows=joint, context={}, ensure_full_rank=case.get("efr", True))
     except Exception as e:  # noqa: BLE001
         out.fail("c07.joint_build_raised", f"{tag}: {type(e).__name__}: {str(e)[:200]}")
         return out
@@ -162,7 +162,7 @@ def judge(case) -> Outcome:
         # separate build of this part's terms with the jointly dropped rows supplied as the drop set
         try:
             with quiet():
-                alone = leaf.get_model_matrix(df, output=case["output"], drop_rows=set(dropped), context={})
+                alone = leaf.get_model_matrix(df, output=case["output"], drop_rows=set(dropped), context={}, ensure_full_rank=case.get("efr", True))
         except Exception as e:  # noqa: BLE001
             out.fail("c07.separate_build_raised", f"{tag}: part {path} alone: {type(e).__name__}: {str(e)[:150]}")
             return out
